@@ -93,6 +93,10 @@ VARIANTS = [
     ('ugrid topology_dimension missing', 'ugrid', {}, [_drop_attr('mesh', 'topology_dimension')], {}),
     ('ugrid topology_dimension "2" (string)', 'ugrid', {}, [_set_attr('mesh', 'topology_dimension', '2')], {}),
     ('nothing recognisable', 'cf1d', {}, [_drop_attr('lat', 'units'), _drop_attr('lon', 'units')], {}),
+    # a SHOC simple file that also carries 1-D station positions, stored ahead of the grid coordinates: still SHOC simple (its own (j, i)
+    # coordinates are what makes it one); the generic 1-D test sees the station variables
+    ('shoc simple with 1-D station latitude / longitude variables listed first', 'shoc_simple', {}, ['_prepend_stations'], {'ShocSimple': HIGH, 'CFGrid1D': LOW}),
+    ('shoc simple with a 1-D station latitude listed first (no station longitude)', 'shoc_simple', {}, ['_prepend_station_lat'], {'ShocSimple': HIGH}),
     # a tie between two entry-point conventions: a SHOC standard file that also carries ems_version and dimensions j, i
     ('shoc standard that also looks like shoc simple (tie)', 'shoc_standard', {}, [_global('ems_version', 'v1.2'), '_add_ji'],
      {'ShocStandard': HIGH, 'ShocSimple': HIGH, 'CFGrid2D': LOW}),
@@ -106,8 +110,30 @@ def _add_ji(ds):
     add_var(ds, 'flag', ('j', 'i'), sym_array(c, 'flag', (n, n), 'V'))
 
 
+def _prepend(ds, names):
+    from pyvc.api import sym_array, sym_size
+    c = core.ctx()
+    old_vars, old_coords = dict(ds._vars), set(ds._coord_names)
+    ds._vars.clear()
+    n = sym_size(c, 'nstation', 0)
+    for name, units in names:
+        add_var(ds, name, ('station',), sym_array(c, name, (n,), 'floatnan'), {'units': units})
+    for k, v in old_vars.items():
+        ds._vars[k] = v
+    ds._coord_names |= old_coords
+
+
+def _prepend_stations(ds):
+    _prepend(ds, [('station_lat', 'degrees_north'), ('station_lon', 'degrees_east')])
+
+
+def _prepend_station_lat(ds):
+    _prepend(ds, [('station_lat', 'degrees_north')])
+
+
+_MODS = {'_add_ji': _add_ji, '_prepend_stations': _prepend_stations, '_prepend_station_lat': _prepend_station_lat}
 for _k, _v in enumerate(VARIANTS):
-    VARIANTS[_k] = (_v[0], _v[1], _v[2], [(_add_ji if m == '_add_ji' else m) for m in _v[3]], _v[4])
+    VARIANTS[_k] = (_v[0], _v[1], _v[2], [(_MODS[m] if isinstance(m, str) else m) for m in _v[3]], _v[4])
 TIE_VARIANT = len(VARIANTS) - 1
 BUILDERS = {'cf1d': inputs.cf1d, 'cf2d': inputs.cf2d, 'shoc_simple': inputs.shoc_simple, 'shoc_standard': inputs.shoc_standard,
             'ugrid': inputs.ugrid}
